@@ -351,6 +351,12 @@ func Run(r *ev.Run) {
 		b := bs[i]
 		rs0, stage, err := drive.Compile(b.text, nil)
 		if stage != "" {
+			// a generated base whose references designate nothing (R1 agrees) is not a schema:
+			// there is no verdict to preserve (such documents are C03's subject)
+			if u, uerr := ref.NewUniverseD(b.text, "", nil, nil, b.draft); stage == "resolve" && (uerr != nil || u.Closure() != nil) {
+				r.Add("bases_that_do_not_resolve", 1)
+				return
+			}
 			r.Fail(b.text, map[string]any{"class": "base " + stage, "error": err.Error()})
 			return
 		}
